@@ -377,7 +377,7 @@ def leader(pid, nq=5000, nt=30000):
     return {"engine": "leader", "driver": "leader-" + pid, "bin": "h2.test", "quick": ["-n", str(nq)], "thorough": ["-n", str(nt)]}
 
 LEADER_NOTE = "leader engine: the real runLeader / leaderLoop on one server whose peers are played by the harness (every replication and heartbeat request parked in the transport, no virtual time passing), one loop iteration per stimulus, compared with SV.stepLeader observation by observation (durable writes, volatile state, FSM calls, resolved futures with index and response, commitment table, in-flight list, NotifyCh); the replication routines are the environment (their requests are judged against the leader's log, their acknowledgements are inputs); leadership transfer, user Restore and the lease timer are not stepped here"
-for _p in ["C01", "C02", "C03", "C04", "C05", "C07", "C08", "C09", "C12", "C17", "C18"]:
+for _p in ["C01", "C02", "C03", "C04", "C05", "C07", "C08", "C09", "C12", "C13", "C17", "C18"]:
     PROPS[_p]["engines"].append(leader(_p))
     PROPS[_p]["assumptions"].append(LEADER_NOTE)
 
@@ -394,5 +394,13 @@ PROPS["C14"]["theorems"].append(T("SV.followerTimeout_forgets_leader", "a heartb
 PROPS["C18"]["theorems"].append(T("SV.followerTimeout_forgets_leader", "a follower that has lost contact for a heartbeat timeout stops naming a leader"))
 PROPS["C12"]["theorems"].append(T("SV.voter_campaigns", "a voter that knows its configuration does become a candidate when its heartbeat timer finds no recent contact: the timeout is never lost"))
 PROPS["C17"]["theorems"].append(T("SV.refused_without_leader", "a call that needs a leader, reaching a server whose leader loop is not running, is answered ErrNotLeader at once and leaves no trace: no write, no state change, nothing queued"))
+
+PROPS["C13"]["lean_module"] = "RaftVerif.Props.C13"
+PROPS["C13"]["theorems"] += [
+    T("SV.lease_deposes_without_quorum", "the stepped leader loop: when a lease check falls due and fewer voters than a quorum (the leader itself included only if it is one) have answered within the lease, the server is a follower afterwards"),
+    T("SV.lease_rearmed_within_lease", "a check that finds a quorum re-arms the timer at most one lease ahead (at least minCheckInterval): a leader is never left unchecked for longer than the lease"),
+    T("SV.leaseLoop_role", "the lease check only ever turns a leader into a follower"),
+]
+PROPS["C13"]["assumptions"].append("in a third of the leader engine's cases virtual time passes in ticks of 250 ms (LeaderLeaseTimeout 250 ms, HeartbeatTimeout 1 s): the real lease timer, checkLeaderLease and its re-arming run and are compared with SV.tickStep; the Spec clause leaseRule judges the observed run (two leases of silence from every other voter leave no leader; a quorum heard within the lease is never deposed)")
 
 HOOK_COMMITS = ["dfecdf5", "9779dc0", "4292c91", "99b3530", "d0a2b1a", "e08c15a", "763d9c7"]
